@@ -136,7 +136,8 @@ fn absolutize_relative_token<'a>(
                 absolute_char_start: iso_literal_extraction_span.start
                     + relative_token.location.span.start
                     + *iterated_so_far_within_token,
-                len: line_text.len() as u32,
+                // LSP token lengths are measured in UTF-16 code units, not bytes
+                len: line_text.encode_utf16().count() as u32,
                 semantic_token: relative_token.item,
             };
             *iterated_so_far_within_token += line_text.len() as u32;
